@@ -280,15 +280,44 @@ def interval_guard(fn):
             and "if interval is not None and interval < 0:" in src and "raise ValueError(msg)" in src)
 
 
+def proc_scale_delta(tree):
+    """How Process.cpu_percent measures the wall clock between two samples.
+    False: `timer()` = `_timer() * num_cpus` is what is remembered, `delta_time = st2 - st1` (as found);
+    True : the raw `_timer()` is remembered, `delta_time = (st2 - st1) * num_cpus` (repaired shape).
+    Anything else: NotRecognised."""
+    fn = extract.find_def(tree, "cpu_percent", cls="Process")
+    src = extract.unparse(fn)
+    nested = [n for n in fn.body if isinstance(n, ast.FunctionDef)]
+    stamps = [extract.unparse(n.value) for n in ast.walk(fn)
+              if isinstance(n, ast.Assign) and extract.dotted(n.targets[0]) in ("st1", "st2")]
+    deltas = [extract.unparse(n.value) for n in ast.walk(fn)
+              if isinstance(n, ast.Assign) and extract.dotted(n.targets[0]) == "delta_time"]
+    if len(deltas) != 1:
+        raise NotRecognised("delta_time assigned %d times" % len(deltas))
+    old = (len(nested) == 1 and nested[0].name == "timer"
+           and extract.unparse(nested[0]).strip().endswith("return _timer() * num_cpus")
+           and sorted(stamps) == sorted(["timer()", "timer()", "self._last_sys_cpu_times", "timer()"])
+           and deltas[0] == "st2 - st1" and src.count("_timer()") == 1)
+    new = (not nested
+           and sorted(stamps) == sorted(["_timer()", "_timer()", "self._last_sys_cpu_times", "_timer()"])
+           and deltas[0] == "(st2 - st1) * num_cpus" and src.count("_timer()") == 3)
+    if old == new:
+        raise NotRecognised("Process.cpu_percent: time stamps %s, delta_time = %s" % (stamps, deltas[0]))
+    return new
+
+
 def proc_percent(tree):
     """(factor, digits, shape_ok)"""
     fn = extract.find_def(tree, "cpu_percent", cls="Process")
     src = extract.unparse(fn)
-    shape = all(p in src for p in (
+    try:
+        proc_scale_delta(tree)
+        stamp_shape_known = True
+    except NotRecognised:
+        stamp_shape_known = False
+    shape = stamp_shape_known and all(p in src for p in (
         "num_cpus = cpu_count() or 1",
-        "return _timer() * num_cpus",
         "delta_proc = pt2.user - pt1.user + (pt2.system - pt1.system)",
-        "delta_time = st2 - st1",
         "if st1 is None or pt1 is None:",
         "single_cpu_percent = overall_cpus_percent * num_cpus",
         "self._last_sys_cpu_times = st2",
@@ -362,7 +391,10 @@ def facts(snap, F):
     pp = lambda: m("pp", lambda: proc_percent(init))
     F.try_add("procFactor", "Nat", lambda: str(pp()[0]), "Process.cpu_percent: (delta_proc / delta_time) * N")
     F.try_add("procDigits", "Nat", lambda: str(pp()[1]), "Process.cpu_percent: round(single_cpu_percent, N)")
+    F.try_add("procScaleDelta", "Bool", lambda: extract.lean_bool(proc_scale_delta(init)),
+              "Process.cpu_percent remembers _timer() * num_cpus and subtracts (false) or remembers the raw _timer() and "
+              "scales the difference by the current num_cpus (true)")
     F.try_add("shapeOk", "Bool",
               lambda: extract.lean_bool(pp()[2] and interval_guard(extract.find_def(init, "cpu_percent"))
                                         and interval_guard(extract.find_def(init, "cpu_times_percent"))),
-              "Process.cpu_percent statement shape (user+system, cpu_count() or 1, first call 0.0, ZeroDivisionError → 0.0) and the three interval guards")
+              "Process.cpu_percent statement shape (user+system, cpu_count() or 1, one of the two known time-stamp shapes, first call 0.0, ZeroDivisionError → 0.0) and the three interval guards")
